@@ -13,8 +13,9 @@ Generated from the current source: `MirGen/EvalPrograms.lean` (`Gen.prog_<task>`
   says — forced per-entry parameters, caller's keywords restricted to the callee's parameters), `keys_<task>`
   (key list and order of the result), `flow_<task>` (which pre-processed value is passed where),
   `forced_accepted_<task>`, `arity_<task>`, `related_<task>` / `unrelated_ignored_<task>`.
-* Known defects of the unchanged code are kept visible as `…_full_statement` + `…_full_statement_false` +
-  `…_partial` (pattern: `thresh`/`thres`; segment/pattern: tuple returns).
+* The defects found on the original snapshot (pattern: `thresh`/`thres`; segment/pattern: tuple returns on empty
+  input) were repaired in the library (commits 84ce008, e3a7cc5, 564d09a); their statements are now proved at full
+  strength (`routes_pattern`, `forced_accepted_pattern`, `related_pattern`, `arity_pattern`, `arity_segment`).
 -/
 namespace Mir.C03
 open Mir.EvalProg
@@ -235,16 +236,8 @@ theorem forced_accepted_segment :
       | some sg => decide (e.2.1 ∈ sg.params)
       | none => false) = true := by decide +kernel
 
-/-- FULL-STRENGTH statement (false): no callee of `segment.evaluate` has a `return` of the wrong shape -/
-def C03_arity_segment_full_statement : Prop := arityMismatches Gen.sigs Gen.prog_segment = []
-
-theorem arity_segment_full_statement_false : ¬ C03_arity_segment_full_statement := by
-  unfold C03_arity_segment_full_statement; decide +kernel
-
-/-- exactly these two functions, bound to ONE score key each, contain `return a, b, c` (their empty-input branch) -/
-theorem arity_segment_partial :
-    arityMismatches Gen.sigs Gen.prog_segment = [("segment.rand_index", 1), ("segment.ari", 1)] := by
-  decide +kernel
+/-- no callee has a `return` whose syntactic shape contradicts the number of score keys it is unpacked into -/
+theorem arity_segment : arityMismatches Gen.sigs Gen.prog_segment = [] := by decide +kernel
 
 /-- the names that can influence the run are documented ones; all `**kwargs` calls are filtered -/
 theorem related_segment :
@@ -614,29 +607,14 @@ example : "zzz" ∉ EvalSpec.key.keywords Gen.sigs := by decide +kernel
 /-- the generated callee rows are the rows of the full signature table -/
 theorem sigsOk_pattern : Gen.SigsOk_pattern Gen.sigs := by decide +kernel
 
-/-- FULL-STRENGTH statement (false of the unchanged code): `pattern.evaluate` routes as documented, i.e. the
-    `F_occ.5` / `F_occ.75` entries are `occurrence_FPR(…, thres=.5)` / `(…, thres=.75)`. -/
-def C03_routes_pattern_full_statement : Prop :=
-  ∀ kw : Kwargs, effectiveCalls Gen.sigs (run Gen.prog_pattern Gen.sigs kw) = EvalSpec.pattern.effCalls Gen.sigs kw
-
-/-- witness `kw = {}`: the code assigns `kwargs["thresh"]`, `occurrence_FPR`'s parameter is `thres`, so the entry
-    `F_occ.5` receives no `thres` at all (default 0.75) where the documentation says 0.5 -/
-theorem routes_pattern_full_statement_false : ¬ C03_routes_pattern_full_statement := by
-  intro h
-  exact absurd (h []) (by decide +kernel)
-
-/-- strongest true statement: everything is routed as documented except that no per-entry threshold reaches
-    `occurrence_FPR` (both occurrence entries get the caller's `thres`, or the default) -/
-theorem routes_pattern_partial (kw : Kwargs) :
+/-- for every caller dictionary: no exception in the body, `return scores` is reached, and every callee effectively
+    receives what the documented bundle says — in particular `F_occ.5` / `F_occ.75` are
+    `occurrence_FPR(…, thres=.5)` / `(…, thres=.75)` whatever the caller passes as `thres` -/
+theorem routes_pattern (kw : Kwargs) :
     runErr Gen.prog_pattern Gen.sigs kw = none ∧ returns Gen.prog_pattern Gen.sigs kw = true ∧
-    effectiveCalls Gen.sigs (run Gen.prog_pattern Gen.sigs kw) = patternAsCoded.effCalls Gen.sigs kw :=
+    effectiveCalls Gen.sigs (run Gen.prog_pattern Gen.sigs kw) = EvalSpec.pattern.effCalls Gen.sigs kw :=
   let h := pattern_aux Gen.sigs sigsOk_pattern kw
   ⟨h.1, h.2.1, h.2.2.1⟩
-
-/-- …and outside the two occurrence entries the as-coded bundle IS the documented one -/
-theorem routes_pattern_partial_agrees :
-    patternAsCoded.calls.filter (fun c => c.fn ≠ "pattern.occurrence_FPR") =
-    EvalSpec.pattern.calls.filter (fun c => c.fn ≠ "pattern.occurrence_FPR") := by decide +kernel
 
 /-- key set and order of the returned dictionary, for every caller dictionary -/
 theorem keys_pattern (kw : Kwargs) :
@@ -649,53 +627,33 @@ theorem keys_pattern (kw : Kwargs) :
 theorem flow_pattern : (flow Gen.inputs_pattern Gen.prog_pattern).map FlowRec.view = EvalSpec.pattern.flow := by
   decide +kernel
 
-/-- FULL-STRENGTH statement (false): every keyword `pattern.evaluate` forces is a parameter of a function it is
-    forced for -/
-def C03_forced_accepted_pattern_full_statement : Prop := deadForces Gen.sigs Gen.prog_pattern = []
-
-theorem forced_accepted_pattern_full_statement_false : ¬ C03_forced_accepted_pattern_full_statement := by
-  unfold C03_forced_accepted_pattern_full_statement; decide +kernel
-
-/-- exactly the two `kwargs["thresh"] = …` assignments are dead (the `n = 5` default is live), and the documented
-    parameter names (`thres`) are parameters of `occurrence_FPR` -/
-theorem forced_accepted_pattern_partial :
-    deadForces Gen.sigs Gen.prog_pattern = [("thresh", .flt (mkRat 1 2)), ("thresh", .flt (mkRat 3 4))] ∧
+/-- every keyword the body forces / defaults is seen by a callee that has a parameter of that name, and every
+    documented per-entry parameter is a parameter of its function -/
+theorem forced_accepted_pattern :
+    deadForces Gen.sigs Gen.prog_pattern = [] ∧
     (EvalSpec.pattern.forcedPairs.all fun e =>
       match Gen.sigs.find e.1 with
       | some sg => decide (e.2.1 ∈ sg.params)
       | none => false) = true := by decide +kernel
 
-/-- FULL-STRENGTH statement (false): no callee of `pattern.evaluate` has a `return` of the wrong shape -/
-def C03_arity_pattern_full_statement : Prop := arityMismatches Gen.sigs Gen.prog_pattern = []
+/-- no callee has a `return` whose syntactic shape contradicts the number of score keys it is unpacked into -/
+theorem arity_pattern : arityMismatches Gen.sigs Gen.prog_pattern = [] := by decide +kernel
 
-theorem arity_pattern_full_statement_false : ¬ C03_arity_pattern_full_statement := by
-  unfold C03_arity_pattern_full_statement; decide +kernel
-
-/-- exactly these two functions, bound to ONE score key each, contain `return a, b, c` (their empty-input branch) -/
-theorem arity_pattern_partial :
-    arityMismatches Gen.sigs Gen.prog_pattern = [("pattern.first_n_three_layer_P", 1), ("pattern.first_n_target_proportion_R", 1)] := by
-  decide +kernel
-
-/-- the names that can influence the run are the documented ones plus the misspelt `thresh` -/
-theorem related_pattern_partial :
-    (∀ k ∈ relatedKeys Gen.sigs Gen.prog_pattern, k ∈ "thresh" :: EvalSpec.pattern.keywords Gen.sigs) ∧
+/-- the names that can influence the run are documented ones; all `**kwargs` calls are filtered -/
+theorem related_pattern :
+    (∀ k ∈ relatedKeys Gen.sigs Gen.prog_pattern, k ∈ EvalSpec.pattern.keywords Gen.sigs) ∧
     allFiltered Gen.sigs Gen.prog_pattern = true := by decide +kernel
 
-theorem unrelated_ignored_pattern_partial (kw : Kwargs) (u : String) (v : KV)
-    (hu : u ∉ "thresh" :: EvalSpec.pattern.keywords Gen.sigs) :
+/-- any keyword without a documented effect on `pattern.evaluate` (e.g. the former misspelling `thresh`) is
+    ignored, for every caller dictionary -/
+theorem unrelated_ignored_pattern (kw : Kwargs) (u : String) (v : KV)
+    (hu : u ∉ EvalSpec.pattern.keywords Gen.sigs) :
     run Gen.prog_pattern Gen.sigs (kw ++ [(u, v)]) = run Gen.prog_pattern Gen.sigs kw :=
   run_extra_keyword_ignored Gen.sigs Gen.prog_pattern kw u v
-    (fun hm => hu (related_pattern_partial.1 u hm)) related_pattern_partial.2
+    (fun hm => hu (related_pattern.1 u hm)) related_pattern.2
 
-example : "zzz" ∉ "thresh" :: EvalSpec.pattern.keywords Gen.sigs := by decide +kernel
-
-/-- a caller's own `thresh=…` is overwritten before any callee could see it and no callee has such a parameter:
-    every callee effectively receives the same as without it -/
-theorem user_thresh_ignored_pattern (kw : Kwargs) (v : KV) :
-    effectiveCalls Gen.sigs (run Gen.prog_pattern Gen.sigs (kw ++ [("thresh", v)])) =
-    effectiveCalls Gen.sigs (run Gen.prog_pattern Gen.sigs kw) := by
-  rw [(routes_pattern_partial (kw ++ [("thresh", v)])).2.2, (routes_pattern_partial kw).2.2]
-  exact pattern_thresh_aux Gen.sigs sigsOk_pattern kw v
+example : "zzz" ∉ EvalSpec.pattern.keywords Gen.sigs ∧ "thresh" ∉ EvalSpec.pattern.keywords Gen.sigs := by
+  decide +kernel
 
 /-! ### hierarchy -/
 
@@ -818,8 +776,9 @@ example : (run Gen.prog_transcription Gen.sigs [("offset_ratio", .flt (mkRat 1 2
     [(0, some (.flt (mkRat 1 2))), (1, some .none), (2, none), (3, some (.flt (mkRat 1 2)))] := by decide +kernel
 
 example : (run Gen.prog_pattern Gen.sigs []).map (fun r => (r.fn, r.kwargs)) =
-    [("pattern.standard_FPR", []), ("pattern.establishment_FPR", []), ("pattern.occurrence_FPR", []),
-     ("pattern.occurrence_FPR", []), ("pattern.three_layer_FPR", []),
+    [("pattern.standard_FPR", []), ("pattern.establishment_FPR", []),
+     ("pattern.occurrence_FPR", [("thres", .flt (mkRat 1 2))]),
+     ("pattern.occurrence_FPR", [("thres", .flt (mkRat 3 4))]), ("pattern.three_layer_FPR", []),
      ("pattern.first_n_three_layer_P", [("n", .int 5)]),
      ("pattern.first_n_target_proportion_R", [("n", .int 5)])] := by decide +kernel
 
